@@ -33,6 +33,26 @@ func c18(c *Ctx) {
 	setAssume(c.Equiv(), c11Assume)
 	equivPackage(c, rule, "eth/rlp", c11Dev["eth/rlp"], map[string]string{})
 	c18R5(c)
+	c18R6(c)
+}
+
+// c18R6: decoded slices do not alias earlier chunks.
+func c18R6(c *Ctx) {
+	rule := c.R.Rule("R6", "fresh chunk per iteration: readReflectBinary decodes a slice in chunks; the chunk handed to reflect.AppendSlice is a reflect.MakeSlice evaluated in the same loop iteration (AppendSlice copies element values, i.e. pointers: a reused chunk makes element i and i+chunk alias the same object)", 1)
+	f := c.Anchor(rule, "gemmill/go-wire.readReflectBinary")
+	if f == nil {
+		return
+	}
+	n := 0
+	for _, ci := range f.CallsTo(cfgx.Named("reflect.AppendSlice")) {
+		n++
+		mk, isCall := ci.Common().Args[1].(*ssa.Call)
+		ok := isCall && cfgxCallee(mk) == "reflect.MakeSlice" && f.Dominates(mk, ci.(ssa.Instruction)) && f.Reaches(ci.(ssa.Instruction), mk)
+		c.R.Ob(rule, "AppendSlice:chunk-is-fresh-MakeSlice", ok, c.Pos(ci), fname(f), "appended chunk is "+shorten(exprOf(ci.Common().Args[1])))
+	}
+	if n == 0 {
+		c.R.Undecided(rule, "AppendSlice-site", c.P.Pos(f.F.Pos()), fname(f), "no chunked append found")
+	}
 }
 
 // funcDecl finds a function declaration in a package's syntax.
